@@ -5,6 +5,7 @@ From BS Require Import Base.Sexp Base.Types Base.Reader Model.Registry Model.Sma
 From BS Require Import Run.D_C15.
 From BS Require Import Run.D_C04 Run.D_C18.
 From BS Require Import Run.D_C06.
+From BS Require Run.D_C08.
 Import ListNotations.
 Open Scope Z_scope.
 
@@ -235,6 +236,7 @@ Definition cmd_history (args : list sexp) : sexp :=
 Definition disp_ext (code : Z) (args : list sexp) : sexp :=
   let nn := code / 1000 in let sub := code mod 1000 in
   match nn with
+  | 8 => BS.Run.D_C08.disp_c08 sub args
   | 6 => disp_c06 sub args
   | 18 => disp_c18 sub args
   | 4 => disp_c04 sub args
